@@ -73,6 +73,11 @@ func (s *Sim) SetSelectOrder(k int) {
 	s.selState = Mix(s.Seed, 0x73656c6563740000+uint64(k))
 }
 
+// SetSelectYield makes every rewritten select statement a park point.
+//
+//go:norace
+func (s *Sim) SetSelectYield(on bool) { s.selYield = on }
+
 var identityOrders = func() [][]int {
 	r := make([][]int, 17)
 	for n := range r {
@@ -89,6 +94,11 @@ var identityOrders = func() [][]int {
 //
 //go:norace
 func SelectOrder(n int) []int {
+	if t := Current(); t != nil && t.sim.selYield && !t.killed.Load() {
+		// the select itself is a scheduling point: everything that could make one of its cases
+		// ready (or a second one as well) may run first, as the run's tape decides
+		t.Park(OpYield, 0, nil, nil)
+	}
 	if n < len(identityOrders) {
 		if t := Current(); t != nil && t.sim.selSalt != 0 && n > 1 {
 			s := t.sim
